@@ -294,6 +294,37 @@ def list_body(chk: Check, repo: Repo, ci: ClassInfo) -> None:
     chk.ob("list-body-length-follows-serialisation", tk.site(), ok, f"{ci.name}: calculated_length = fixed {f1} + sum over {l1}; to_knx = fixed {f2} + join over {l2}", key=f"listbody|{ci.name}")
 
 
+def nested_structures_compare_by_value(chk: Check, repo: Repo) -> None:
+    """"Parsing that frame yields an equal body": KNXIPBody.__eq__ compares __dict__, so every object a body keeps in an
+    attribute (HPAI, CRI/CRD, DIBs, SRPs, ...) has to compare by value itself - a class without __eq__ falls back to
+    identity and makes every body holding one unequal to its own parse.  Census over the structure classes of
+    xknx.knxip: classes with to_knx and from_knx that are not bodies, frames or headers of their own."""
+    base = repo.cls("xknx.knxip.body", "KNXIPBody")
+    n = 0
+    for c in repo.all_classes():
+        if not c.module.name.startswith("xknx.knxip.") or repo.is_subclass(c, base) or repo.is_enum(c):
+            continue
+        if repo.lookup_method(c, "to_knx") is None or repo.lookup_method(c, "from_knx") is None:
+            continue
+        if any(isinstance(s_, ast.FunctionDef) and s_.name in ("to_knx",) and any(isinstance(d, ast.Name) and d.id == "abstractmethod" for d in s_.decorator_list) for s_ in c.node.body):
+            continue  # abstract interface - its concrete subclasses are checked
+        subs = repo.subclasses(c, strict=True)
+        if subs and all(repo.is_subclass(k, base) for k in subs):
+            continue  # a mixin of body classes - those get KNXIPBody.__eq__
+        n += 1
+        eq = repo.lookup_method(c, "__eq__")
+        value_type = any(b in ("NamedTuple", "tuple") for b in repo.ext_base_names(c)) or any("dataclass" in ast.unparse(d) for d in c.node.decorator_list)
+        chk.ob("nested-structure-compares-by-value", f"{c.module.relpath}:{c.node.lineno}:{c.name}", eq is not None or value_type, f"{c.name}: " + (f"__eq__ defined by {eq.cls.name}" if eq is not None else ("value type" if value_type else "no __eq__ in its MRO - bodies holding it compare it by identity")), key=f"eq|{c.name}")
+    chk.floor("KNX/IP structure classes checked for value equality", n, 8)
+    # a serialiser that asserts on the object's state refuses a constructible object with a bare AssertionError
+    for f in repo.all_functions():
+        if not f.module.name.startswith("xknx.knxip.") or f.node.name not in ("to_knx", "calculated_length"):
+            continue
+        for a in walk_local(f.node):
+            if isinstance(a, ast.Assert):
+                chk.ob("serialiser-does-not-assert-on-its-fields", f.site(a), False, f"{f.qualname}: `{ast.unparse(a)[:90]}` - an object whose fields the constructor accepts (here: the default / error-status case) cannot be serialised", key=f"assert|{f.qualname}")
+
+
 def run(chk: Check, repo: Repo) -> None:
     ev = SerEval(repo)
     base = repo.cls("xknx.knxip.body", "KNXIPBody")
@@ -308,6 +339,7 @@ def run(chk: Check, repo: Repo) -> None:
     for modname, cname in (("xknx.knxip.hpai", "HPAI"), ("xknx.knxip.connect_request", "ConnectRequestInformation"), ("xknx.knxip.connect_response", "ConnectResponseData")):
         n += roundtrip(chk, repo, ev, repo.cls(modname, cname), "structure")
     chk.count("serialiser paths composed with the parser", n)
+    nested_structures_compare_by_value(chk, repo)
     chk.floor("serialiser paths composed with the parser", n, 40)
     # frame level: header length = HEADERLENGTH + calculated_length()
     sl = repo.func("xknx.knxip.header", "KNXIPHeader.set_length")
